@@ -13,21 +13,26 @@ def run(ctx):
         done = te.replay_and_judge(ctx, [rp["behaviour"]], "replay")
         return ctx.finish("model_checking", {"replayed_behaviours": done.get("behaviours", 0)})
 
-    # 1. exhaustive: one configuration per family (crash/restart; compaction + crash; delete + crash)
+    # 1. exhaustive: one configuration per family (crash/restart; compaction + crash; delete + crash).
+    #    The deviation that was repaired (F1, stale WAL writer offset) must still be expressible: with it enabled
+    #    TLC has to find the loss (vacuity guard for C01_Durable and the Crash/Restart actions).
     big = not ctx.quick()
-    te.mc(ctx, sd, "MCcrash", te.mc_consts(w=3, snap=1, crash=2, times=(0, 1, 2) if big else (0, 1)), te.INV_C01)
-    te.mc(ctx, sd, "MCcompact", te.mc_consts(w=3 if big else 2, snap=2, comp=1, crash=1), te.INV_C01)
-    te.mc(ctx, sd, "MCdelcrash", te.mc_consts(keys=("a1", "a2", "b1") if big else ("a1", "b1"), w=2, snap=1, dele=1, crash=1), te.INV_C01)
-    # the deviation that was repaired (F1, stale WAL writer offset) must still be expressible: with it enabled
-    # TLC has to find the loss.  (vacuity guard for C01_Durable and the Crash/Restart actions)
-    te.negative_control(ctx, sd, "NCf1", te.mc_consts(w=3, snap=1, crash=2, dev=("F1",)), "C01_Durable")
+    w = 8 if big else 4
+    te.run_parallel([
+        lambda: te.mc(ctx, sd, "MCcrash", te.mc_consts(w=3, snap=1, crash=2, times=(0, 1, 2) if big else (0, 1)), te.INV_C01, workers=w),
+        lambda: te.mc(ctx, sd, "MCcompact", te.mc_consts(w=3 if big else 2, snap=2, comp=1, crash=1), te.INV_C01, workers=w),
+        lambda: te.mc(ctx, sd, "MCdelcrash", te.mc_consts(keys=("a1", "a2", "b1") if big else ("a1", "b1"), w=2, snap=1, dele=1, crash=1), te.INV_C01, workers=w),
+        lambda: te.negative_control(ctx, sd, "NCf1", te.mc_consts(w=3, snap=1, crash=2, dev=("F1",)), "C01_Durable"),
+    ], max_workers=2 if big else 4)
 
     # 2. behaviours -> real store, crash images at every durable step, behaviour continued on the image
-    n = ctx.pick(1, 10)
-    behs = []
-    behs += te.generate(ctx, sd, "GenCrash", te.gen_consts(["write", "snapshot", "reopen", "crash"], crash=4, comp=0, dele=0), num=14 * n)
-    behs += te.generate(ctx, sd, "GenCompact", te.gen_consts(["write", "snapshot", "gate", "compact", "crash"], crash=2, dele=0), num=8 * n)
-    behs += te.generate(ctx, sd, "GenDelete", te.gen_consts(["write", "snapshot", "compact", "delete", "reopen", "crash"], crash=3), num=8 * n)
+    n = ctx.pick(1, 5)
+    gens = te.run_parallel([
+        lambda: te.generate(ctx, sd, "GenCrash", te.gen_consts(["write", "snapshot", "reopen", "crash"], crash=4, comp=0, dele=0), num=10 * n),
+        lambda: te.generate(ctx, sd, "GenCompact", te.gen_consts(["write", "snapshot", "gate", "compact", "crash"], crash=2, dele=0, w=5, snap=4), num=10 * n),
+        lambda: te.generate(ctx, sd, "GenDelete", te.gen_consts(["write", "snapshot", "compact", "delete", "reopen", "crash"], crash=3), num=6 * n),
+    ])
+    behs = te.known_behaviours(ctx) + [b for g in gens for b in g]
     acts, f1, f14 = te.stats(behs)
     log("  behaviours: %d; second-restart-after-torn-tail histories: %d; step kinds: %d" % (len(behs), f1, len(acts)))
     if f1 == 0:
